@@ -18,7 +18,7 @@ use tls_parser::*;
 pub fn generate(rng: &mut Rng, prop: Prop) -> Scenario {
     let mut s = Scenario::new("taps");
     let confused = prop == Prop::C01;
-    let kind = *rng.pick(structs::KINDS);
+    let kind = if confused && rng.chance(1, 5) { *rng.pick(structs::CONFUSED_ONLY) } else { *rng.pick(structs::KINDS) };
     let mut bytes = structs::structure(rng, kind);
     let mut lied = 0u64;
     // length-lie / corruption of nested fields (constructive: a single field changed)
@@ -60,6 +60,9 @@ pub fn generate(rng: &mut Rng, prop: Prop) -> Scenario {
     let total = bytes.len() + trail.len();
     let mode = if total > 1500 { rng.range(1, 3) } else { rng.below(4) };
     let mut left = total;
+    // (large structures - long lists - arrive in at most ~50 events: the monitor re-parses the whole
+    // buffer with every parser at every event)
+    let min_seg = if total > 1500 { total / 48 } else if confused { (total / 32).max(1) } else { 1 };
     while left > 0 {
         let n = match mode {
             0 => 1,
@@ -67,6 +70,7 @@ pub fn generate(rng: &mut Rng, prop: Prop) -> Scenario {
             2 => rng.small_len(600).max(1),
             _ => left,
         }
+        .max(min_seg)
         .min(left);
         s.push(Item::new("seg").int("n", n as u64));
         left -= n;
@@ -146,15 +150,22 @@ fn tap<'a>(kind: &str, b: &'a [u8]) -> (Outcome, Option<(&'a [u8], TapVal<'a>)>)
         "ext_tag" => {
             // the public single-purpose parser for the extension type on the wire (each is itself a
             // self-delimiting single-extension parser); other types go through the generic one
+            // (the tags some of them accept are not the registry's: ec_point_formats wants 0x000a,
+            // heartbeat 0x000d, pre_shared_key 0x0028 - each parser is routed the tag IT accepts, and
+            // where two parsers accept the same tag the parity of the declared length picks one)
             let t = if b.len() >= 2 { (b[0] as u16) << 8 | b[1] as u16 } else { 0xffff };
+            let alt = b.len() >= 4 && b[3] & 1 == 1;
             let f: fn(&[u8]) -> IResult<&[u8], TlsExtension> = match t {
                 0 => parse_tls_extension_sni,
                 1 => parse_tls_extension_max_fragment_length,
                 5 => parse_tls_extension_status_request,
+                10 if alt => parse_tls_extension_ec_point_formats,
                 10 => parse_tls_extension_elliptic_curves,
                 11 => parse_tls_extension_ec_point_formats,
+                13 if alt => parse_tls_extension_heartbeat,
                 13 => parse_tls_extension_signature_algorithms,
                 15 => parse_tls_extension_heartbeat,
+                40 => parse_tls_extension_pre_shared_key,
                 22 => parse_tls_extension_encrypt_then_mac,
                 23 => parse_tls_extension_extended_master_secret,
                 35 => parse_tls_extension_session_ticket,
@@ -212,7 +223,9 @@ pub fn execute(scn: &Scenario, ctx: &mut Ctx) {
     let mut events = 0u32;
     let segs: Vec<usize> = scn.items.iter().filter(|i| i.kind == "seg").map(|i| i.u("n") as usize).collect();
     let mut dribble = false;
-    for n in segs.into_iter().chain(std::iter::once(usize::MAX)) {
+    // the first event delivers nothing: a reader that calls its parser before any byte arrived
+    // hands it the empty slice
+    for n in std::iter::once(0usize).chain(segs.into_iter()).chain(std::iter::once(usize::MAX)) {
         if delivered >= full.len() && events > 0 {
             break;
         }
@@ -233,6 +246,18 @@ pub fn execute(scn: &Scenario, ctx: &mut Ctx) {
             for (name, f) in allparsers::ALL.iter() {
                 let r = ctx.call(name, buf.len(), 0, || f(buf, aux));
                 ctx.log(0xc01, mix_str(0, name), r.unwrap_or(0) as u64);
+            }
+            // ... and, as a layered consumer does, the part behind one of the fixed-size headers
+            // (handshake 4, record 5, record + handshake 9, DTLS handshake 12, DTLS record 13,
+            // DTLS record + handshake 25): body / content parsers then see aligned, well-formed input
+            let off = [0usize, 4, 5, 9, 12, 13, 25][aux % 7];
+            if off > 0 && buf.len() >= off {
+                let sub = &buf[off..];
+                for (name, f) in allparsers::ALL.iter() {
+                    let r = ctx.call(name, sub.len(), 0, || f(sub, aux));
+                    ctx.log(0xc02, mix_str(0, name), r.unwrap_or(0) as u64);
+                }
+                ctx.count("oracle/confused_monitor_sub_offset_events", 1);
             }
             ctx.trace(0xc01 + ki as u64, 0, buf.len());
             continue;
